@@ -18,11 +18,14 @@ from .common import parallel_map
 RULE = ("cases = (table text, flavor, setup types): tables of 1-8 items (commands, if / else-if / else chains of up to 5 "
         "branches with 0-3 commands each, conditions of depth <= 3 over FLAVOR/TYPE with == != && || and parentheses), "
         "rendered with random indentation, blank lines, comments, letter case of command names and keywords, "
-        "quoting styles, separators and trailing semicolons; legacy tables (Group:/Flavor=/Common:/End: and runs "
-        "of Flavor= lines); a malformed stream (lines dropped, duplicated, inserted; wrong arity); each table is "
-        "evaluated for every flavor it mentions plus an unmentioned one, with TYPE absent / one / two types.  A case "
-        "is non-trivial when its table has a conditional chain, a legacy group or a quoted argument; distinct = "
-        "distinct (text, flavor, types) digests")
+        "quoting styles (incl. empty, blank-only and comma-terminated quoted arguments, escaped quotes), separators and "
+        "trailing semicolons; legacy tables (Group:/Flavor=/Common:/End: and runs of Flavor= lines); a malformed stream "
+        "(lines dropped, duplicated, inserted; wrong arity; operators outside the property's grammar); every condition "
+        "also on its own through VersionParser; exhaustive small enumerations (all chain shapes of <= 3 branches with "
+        "empty / non-empty branches and else; all conditions of depth <= 1, thorough: <= 2, over 2 flavors x 2 types); each "
+        "table is evaluated for every flavor it mentions plus an unmentioned one, with TYPE absent / one / two types.  "
+        "A case is non-trivial when its table has a conditional chain, a legacy group or a quoted argument, or is an "
+        "enumerated condition batch; distinct = distinct (text, flavor, types) digests")
 TRUSTED = ["CPython `re` on the patterns of table.py / VersionParser.py (hand-translated to list functions in the model; "
            "exercised against the real `re` through the code on every run, not verified)",
            "table texts are ASCII without `\\r`, control characters 1-3 and 28-31; conditions contain no `$`"]
